@@ -71,16 +71,26 @@ def explore(ctx):
             elif which == "flatten":
                 modified = FlattenComponentsFilter(**kw)(font, gset)
             elif which == "transform":
-                sx, sy = rng.choice([100, 100, 50, 200, 25, 400, -100]), rng.choice([100, 100, 50, 200, -100])
+                tcount = ctx.notes["transform_cases"] = ctx.notes.get("transform_cases", 0) + 1
+                sx, sy = rng.choice([100, 100, 50, 200, 25, 400, -100]), [50, 200, 100, -100, 50, 100][tcount % 6]
                 opts = {"OffsetX": rng.choice([0, 0, 10, -35]), "OffsetY": rng.choice([0, 0, 7, -100]),
-                        "ScaleX": sx, "ScaleY": sy, "Origin": rng.choice([4, 4, 0, 2, 1])}
-                font.info.capHeight = 700
-                font.info.xHeight = 500
-                case["options"] = opts
+                        "ScaleX": sx, "ScaleY": sy, "Origin": [1, 3, 4, 0, 2][tcount % 5]}
+                # heights whose halves end in .5 with an even and with an odd integer part, plain ones, zero
+                cap, xh = [645, 701, 700, 650, 0, 647][tcount % 6], [449, 453, 500, 480, 451][tcount % 5]
+                font.info.capHeight = cap
+                font.info.xHeight = xh
+                case["options"] = dict(opts, capHeight=cap, xHeight=xh)
                 f = TransformationsFilter(**opts, **kw)
                 modified = f(font, gset)
-                m = tuple(Fr(v) for v in f.context.matrix)
+                # the REQUESTED matrix, stated independently of the filter: offset, then scaling about the origin height
+                # (cap height, x-height, their halves rounded half up, or the baseline)
+                h = {0: Fr(cap), 1: Fr(geom.ot_round(Fr(cap, 2))), 2: Fr(xh), 3: Fr(geom.ot_round(Fr(xh, 2))), 4: Fr(0)}[opts["Origin"]]
+                fx, fy = Fr(sx, 100), Fr(sy, 100)
+                if sx == 100 and sy == 100:
+                    h = Fr(0)
+                m = (fx, Fr(0), Fr(0), fy, Fr(opts["OffsetX"]), Fr(opts["OffsetY"]) + h - fy * h)
                 case["matrix"] = jsonable(m)
+                case["filter_matrix"] = jsonable(tuple(Fr(v) for v in f.context.matrix))
             else:
                 modified = PropagateAnchorsFilter(**kw)(font, gset)
         except Exception as e:
